@@ -317,7 +317,9 @@ class Vector():
 			a = a.to_object()            # now object vector
 			a[2] = "ryan"                # allowed - can mix types
 		"""
-		return Vector(list(self._underlying), dtype=object, name=self._name, as_row=self._display_as_row)
+		# DataType(object) is not nullable: say nullable exactly when a None is carried over
+		dtype = DataType(object, nullable=any(x is None for x in self._underlying))
+		return Vector(list(self._underlying), dtype=dtype, name=self._name, as_row=self._display_as_row)
 
 	def alias(self, new_name):
 		"""
